@@ -80,7 +80,19 @@ def shard_main(args) -> int:
             stream = [only['case']]
         else:
             stream = fam.cases(args.seed, args.tier, args.property)
-        for case in stream:
+        it = iter(stream)
+        while True:
+            # (enumerated families run their base program inside the generator: that run is under the watchdog too)
+            signal.alarm(CASE_WATCHDOG_S)
+            try:
+                case = next(it)
+            except StopIteration:
+                break
+            except _Watchdog:
+                out['inconclusive']['watchdog'] += 1
+                break
+            finally:
+                signal.alarm(0)
             idx += 1
             if only is None and (idx - 1) % args.nshards != args.shard:
                 continue
@@ -208,7 +220,9 @@ def main() -> int:
         have = merged['counters'].get(ckey, 0)
         if have < need:
             floors_missed.append(f'{ckey}: {have} < {need}')
-    inconclusive = bool(shard_fail) or bool(floors_missed) or any(k.startswith('harness-error') for k in merged['inconclusive'])
+    # a case that ran into the wall-clock watchdog (the process was stuck in a synchronous loop, or the machine was far too slow) was
+    # not decided: the run as a whole is inconclusive, never 'held'
+    inconclusive = bool(shard_fail) or bool(floors_missed) or any(k.startswith('harness-error') or k == 'watchdog' for k in merged['inconclusive'])
 
     wall = time.time() - t0
     ev = {
